@@ -189,39 +189,39 @@ impl Board {
         new_rights
     }
 
-    pub fn increment_fullmove_clock(&mut self) -> u8 {
+    pub fn increment_fullmove_clock(&mut self) -> u16 {
         self.move_info.increment_fullmove_clock()
     }
 
-    pub fn decrement_fullmove_clock(&mut self) -> u8 {
+    pub fn decrement_fullmove_clock(&mut self) -> u16 {
         self.move_info.decrement_fullmove_clock()
     }
 
-    pub fn set_fullmove_clock(&mut self, clock: u8) -> u8 {
+    pub fn set_fullmove_clock(&mut self, clock: u16) -> u16 {
         self.move_info.set_fullmove_clock(clock)
     }
 
-    pub fn fullmove_clock(&self) -> u8 {
+    pub fn fullmove_clock(&self) -> u16 {
         self.move_info.fullmove_clock()
     }
 
-    pub fn push_halfmove_clock(&mut self, clock: u8) -> u8 {
+    pub fn push_halfmove_clock(&mut self, clock: u16) -> u16 {
         self.move_info.push_halfmove_clock(clock)
     }
 
-    pub fn increment_halfmove_clock(&mut self) -> u8 {
+    pub fn increment_halfmove_clock(&mut self) -> u16 {
         self.move_info.increment_halfmove_clock()
     }
 
-    pub fn reset_halfmove_clock(&mut self) -> u8 {
+    pub fn reset_halfmove_clock(&mut self) -> u16 {
         self.move_info.reset_halfmove_clock()
     }
 
-    pub fn halfmove_clock(&self) -> u8 {
+    pub fn halfmove_clock(&self) -> u16 {
         self.move_info.halfmove_clock()
     }
 
-    pub fn pop_halfmove_clock(&mut self) -> u8 {
+    pub fn pop_halfmove_clock(&mut self) -> u16 {
         self.move_info.pop_halfmove_clock()
     }
 
